@@ -1,6 +1,7 @@
 import Poulpy.Driver.Util
 import Poulpy.Model.Avx
 import Poulpy.Model.AvxQ120
+import Poulpy.Model.AvxNtt
 /-
 Driver of the C10 lane model.  Wire format (same tokens as `pvh avx`, see harness/src/avx_kern.rs):
   `id avx kern be=<fref|favx|nref|navx> op=<name> [b=] [lsh=] [k=] [p=] [ow=0|1] x=.. [a=..] [c=..]`
@@ -112,9 +113,127 @@ def q120 (ts : List String) : String :=
     showNats out
   else "bad-op"
 
+
+/-! ### `nk`: the raw NTT120 kernels (twin of `pvh avx nk`): `be=navx` evaluates the BitVec lane model of `Model/AvxNtt.lean`,
+`be=nref` the reference model of `Model/Ntt120.lean` (C07) -/
+section Nk
+open Avx.Ntt
+
+def everyFourth (l : List Nat) (k : Nat) : List Nat := (l.zipIdx).filterMap (fun (v, i) => if i % 4 == k then some v else none)
+def bv (x : Nat) : BitVec 64 := BitVec.ofNat 64 x
+def interleave (ls : List (List Nat)) (n : Nat) : List Nat := (List.range n).flatMap (fun i => ls.map (fun l => l.getD i 0))
+def chunksOf (c : Nat) : Nat → List (BitVec 64) → List (List (BitVec 64))
+  | 0, _ => []
+  | fuel + 1, l => if l.isEmpty || c == 0 then [] else l.take c :: chunksOf c fuel (l.drop c)
+
+/-- one prime lane of `ntt` / `intt`; `split` = number of by-level passes (forward) / log2 of the chunk width (inverse) -/
+def nttLane (inverse avx : Bool) (n k split : Nat) (lane : List Nat) : Option (List Nat) :=
+  match (if inverse then Ntt120.inttTableK Ntt120.primes30 k n else Ntt120.nttTableK Ntt120.primes30 k n) with
+  | .ok t =>
+    if !avx then some (if inverse then Ntt120.inttK t lane else Ntt120.nttK t lane)
+    else if !(fitsTable t) then none
+    else
+      let v := lane.map bv
+      let r := if inverse then inttAvx (redCOf t.reduc) (t.levels.map levelCOf) split (chunksOf (2 ^ split) v.length v)
+               else nttAvx (redCOf t.reduc) (t.levels.map levelCOf) split v
+      some (r.map BitVec.toNat)
+  | _ => none
+
+def termN (x y : Nat) : Nat × Nat × Nat × Nat := (x &&& Ntt120.m32, x >>> 32, y &&& Ntt120.m32, y >>> 32)
+
+def nk (ts : List String) : String :=
+  let op := (kv ts "op").getD ""
+  let avx := isAvx ts
+  let x := kvNats ts "x"
+  let y := kvNats ts "y"
+  let q := fun k => Q30 k
+  let qs := fun k => Ntt120.qShifted (Q30 k)
+  let lane1 := fun (f : Nat → Nat → Nat) => showNats ((x.zipIdx).map (fun (v, i) => f (i % 4) v))
+  let lane2 := fun (f : Nat → Nat → Nat → Nat) => showNats (((x.zip y).zipIdx).map (fun (vw, i) => f (i % 4) vw.1 vw.2))
+  if op == "ntt" || op == "intt" then
+    let n := kvNat ts "n"
+    let inverse := op == "intt"
+    let lg := Nat.log2 n
+    let split := match kv ts "split" with
+      | some s => s.toNat?.getD 0
+      | none => if inverse then min lg 10 else lg - 10
+    if n == 1 then showNats x
+    else
+      let ls := (List.range 4).map (fun k => nttLane inverse avx n k split (everyFourth (x.take (4 * n)) k))
+      if ls.any Option.isNone then "nofit"
+      else showNats (interleave (ls.map (fun o => o.getD [])) n ++ x.drop (4 * n))
+  else if op == "add" || op == "add_assign" then
+    lane2 (fun k a b => if avx then (nttAdd (bv (qs k)) (bv a) (bv b)).toNat else Ntt120.addBbbK (q k) a b)
+  else if op == "sub" || op == "sub_assign" then
+    lane2 (fun k a b => if avx then (nttSub (bv (qs k)) (bv a) (bv b)).toNat else Ntt120.subBbbK (q k) a b)
+  else if op == "sub_negate_assign" then
+    lane2 (fun k r a => if avx then (nttSub (bv (qs k)) (bv a) (bv r)).toNat else Ntt120.subBbbK (q k) a r)
+  else if op == "negate" || op == "negate_assign" then
+    lane1 (fun k a => if avx then (nttNegate (bv (qs k)) (bv a)).toNat else Ntt120.negBK (q k) a)
+  else if op == "to_znx128" then
+    let n := x.length / 4
+    showInts ((List.range n).map (fun j =>
+      let g := fun k => x.getD (4 * j + k) 0
+      if avx then bToZnx128AvxCoef ⟨bv (g 0), bv (g 1), bv (g 2), bv (g 3)⟩ qV muV p32V p16V crtV hiV midV loV totQ30
+      else Ntt120.bToZnx128Core Ntt120.primes30 (g 0) (g 1) (g 2) (g 3)))
+  else if op == "mul_bbb" then
+    let h := kvNat ts "h"
+    let c := fun (name : String) (k : Nat) => (kvNats ts name).getD k 0
+    let s1h := kvNat ts "s1h"
+    showNats ((List.range 4).map (fun k =>
+      let rows := (everyFourth x k).zip (everyFourth y k)
+      if avx then
+        (bbbLane (bv (Ntt120.maskOf h)) (bv h) (bv s1h) (bv (c "s2l" k)) (bv (c "s2h" k)) (bv (c "s3l" k)) (bv (c "s3h" k))
+          (bv (c "s4l" k)) (bv (c "s4h" k)) (rows.map (fun p => (bv p.1, bv p.2)))).toNat
+      else Ntt120.bbbK h s1h (c "s2l" k) (c "s2h" k) (c "s3l" k) (c "s3h" k) (c "s4l" k) (c "s4h" k) rows))
+  else if op == "mul_bbc_x2" || op == "mul_bbc_2cols" then
+    let h := kvNat ts "h"
+    let s2l := kvNats ts "s2l"
+    let s2h := kvNats ts "s2h"
+    let ell := x.length / 8
+    let two := op == "mul_bbc_2cols"
+    let words := if two then 4 else 2
+    showNats ((List.range words).flatMap (fun w => (List.range 4).map (fun k =>
+      let rows := (List.range ell).map (fun i =>
+        (x.getD (i * 8 + (w % 2) * 4 + k) 0, y.getD (if two then i * 16 + w * 4 + k else i * 8 + w * 4 + k) 0))
+      if avx then (bbcLane (bv (Ntt120.maskOf h)) (bv h) (bv (s2l.getD k 0)) (bv (s2h.getD k 0)) (rows.map (fun p => (bv p.1, bv p.2)))).toNat
+      else Ntt120.bbcK h (s2l.getD k 0) (s2h.getD k 0) (rows.map (fun p => termN p.1 p.2)))))
+  else if op == "pack_left" || op == "pairwise_pack_left" then
+    let rows := kvNat ts "rows"
+    let stride := kvNat ts "stride"
+    let blk := kvNat ts "blk"
+    let mu := fun k => 2 ^ 61 / Q30 k
+    let pw := fun k => 2 ^ 32 % Q30 k
+    showNats ((List.range rows).flatMap (fun r => (List.range 8).map (fun j =>
+      let k := j % 4
+      let a := x.getD (r * stride + 8 * blk + j) 0
+      let b := y.getD (r * stride + 8 * blk + j) 0
+      if op == "pack_left" then
+        (if avx then (reduceBToCanonical (bv a) (bv (q k)) (bv (mu k)) (bv (pw k))).toNat else a % q k)
+      else
+        (if avx then (pairwisePackLeft (bv a) (bv b) (bv (q k)) (bv (mu k)) (bv (pw k))).toNat
+         else (let s := a % q k + b % q k; if s ≥ q k then s - q k else s)))))
+  else if op == "pack_right" || op == "pairwise_pack_right" then
+    -- operands are u32 arrays carried as u64 words; `stride` in u32 units (even)
+    let rows := kvNat ts "rows"
+    let stride := kvNat ts "stride"
+    let blk := kvNat ts "blk"
+    showNats ((List.range rows).flatMap (fun r => (List.range 8).map (fun j =>
+      let idx := ((rows - 1 - r) * stride + 16 * blk) / 2 + j
+      let a := x.getD idx 0
+      let b := y.getD idx 0
+      if op == "pack_right" then a
+      else
+        let add32 := fun (u v : Nat) => if avx then (add_epi32 (BitVec.ofNat 32 u) (BitVec.ofNat 32 v)).toNat else (u + v) % 2 ^ 32
+        add32 (a % 2 ^ 32) (b % 2 ^ 32) + add32 (a / 2 ^ 32) (b / 2 ^ 32) * 2 ^ 32)))
+  else "bad-op"
+
+end Nk
+
 def handle (ts : List String) : String :=
   match ts with
   | "q120" :: rest => q120 rest
+  | "nk" :: rest => nk rest
   | "kern" :: rest =>
     let op := (kv rest "op").getD ""
     if op.startsWith "nfc_" || op.startsWith "i128_" then kern128 rest else kern64 rest
